@@ -6,6 +6,7 @@ import (
 	"errors"
 	"fmt"
 	"net"
+	"net/http"
 	"net/url"
 	"os"
 	"strings"
@@ -15,6 +16,7 @@ import (
 
 	"go.nanomsg.org/mangos/v3"
 	"go.nanomsg.org/mangos/v3/internal/core"
+	"go.nanomsg.org/mangos/v3/transport/ws"
 	itest "go.nanomsg.org/mangos/v3/internal/test"
 )
 
@@ -297,6 +299,50 @@ type wcase struct {
 	hung map[string]bool // later calls that did not return
 
 	release func() // i-pending: lets the parked Attaching hook return
+	after   func() // j-handler: the application shuts its own HTTP server down once the sockets are closed
+}
+
+// sitHandlerMode: the subject's ws / wss listener runs no server of its own: its handler is mounted
+// on an HTTP server of the application.  A peer connects through that server (variant recv: and a
+// Recv is blocked on the subject).  After the sockets are closed the application closes its server.
+func (w *wcase) sitHandlerMode() {
+	w.subj = w.newSock(w.k, "subject")
+	w.peer = w.newSock(kindByName(w.k.peer), "peer")
+	w.socks = []*sock{w.subj, w.peer}
+	ln, err := net.Listen("tcp", "127.0.0.1:0")
+	if err != nil {
+		w.setupFail("application listener: %v", err)
+	}
+	if w.t.tls {
+		ln = tls.NewListener(ln, w.srvTLS)
+	}
+	addr := fmt.Sprintf("%s://%s/handler", w.t.scheme, ln.Addr().String())
+	atomic.AddInt64(&opCount, 3)
+	l, err := w.subj.s.NewListener(addr, w.opts(true))
+	if err != nil {
+		w.setupFail("NewListener(%s): %v", addr, err)
+	}
+	h, err := l.GetOption(ws.OptionWebSocketHandler)
+	if err != nil {
+		w.setupFail("GetOption(OptionWebSocketHandler): %v", err)
+	}
+	mux := http.NewServeMux()
+	mux.Handle("/handler", h.(http.Handler))
+	srv := &http.Server{Handler: mux}
+	go func() { _ = srv.Serve(ln) }()
+	w.after = func() { _ = srv.Close() }
+	if err = l.Listen(); err != nil {
+		w.setupFail("Listen (handler mode): %v", err)
+	}
+	w.dial(w.peer, addr, false)
+	if !poll(setupWatchdog, 2*time.Millisecond, func() bool { return w.subj.live() >= 1 && w.peer.live() >= 1 }) {
+		w.setupFail("the pair did not attach through the application's server (subject %d, peer %d)", w.subj.live(), w.peer.live())
+	}
+	if w.spec.Var == "recv" && w.k.canRecv {
+		w.blockRecv(false)
+	} else {
+		w.res.InProgress = true
+	}
 }
 
 type setupError struct{ msg string }
@@ -352,6 +398,8 @@ func (w *wcase) run() {
 		w.sitStallDial()
 	case "i-pending":
 		w.sitPendingAccept()
+	case "j-handler":
+		w.sitHandlerMode()
 	default:
 		w.setupFail("unknown situation %s", w.spec.Sit)
 	}
@@ -896,6 +944,9 @@ func (w *wcase) closeAndJudge() {
 		w.closeSock(x)
 	}
 	atomic.StoreInt32(&w.closedFlag, 1)
+	if w.after != nil {
+		w.after()
+	}
 
 	// --- 5. the listening addresses can be bound again at once
 	for _, a := range w.listenAddrs {
